@@ -34,6 +34,7 @@ type Verifier struct {
 	labelSiteTypes map[string]types.Type
 	effMemo        map[*ssa.Function]map[string]bool
 	syncMapSwept   bool
+	setOnceSwept   bool
 	wgSwept        bool
 	expSet         map[string]bool
 }
@@ -231,6 +232,49 @@ func (v *Verifier) underContract(key string) bool {
 			return false
 		}
 		key = key[:i]
+	}
+}
+
+// setOnceSweep: the set-once rule is only as good as its coverage: every store to a set-once field anywhere in the
+// module must sit in a function under contract (where the store generates its obligation).
+func (v *Verifier) setOnceSweep() {
+	if v.setOnceSwept {
+		return
+	}
+	v.setOnceSwept = true
+	any := false
+	for _, tc := range v.C.Types {
+		if len(tc.SetOnce) > 0 {
+			any = true
+		}
+	}
+	if !any {
+		return
+	}
+	for fn := range v.P.All {
+		for _, b := range fn.Blocks {
+			for _, in := range b.Instrs {
+				s, ok := in.(*ssa.Store)
+				if !ok {
+					continue
+				}
+				fa, ok := s.Addr.(*ssa.FieldAddr)
+				if !ok {
+					continue
+				}
+				ns := namedStruct(pointee(fa.X.Type()))
+				if ns == nil {
+					continue
+				}
+				tc := v.C.Types[typeName(ns)]
+				if tc == nil || !tc.SetOnce[ns.Underlying().(*types.Struct).Field(fa.Field).Name()] {
+					continue
+				}
+				if !v.underContract(v.P.FuncKey(fn)) {
+					unsupportedf("setonce rule: %s stores to %s.%s and is not under contract", fn, tc.Name, ns.Underlying().(*types.Struct).Field(fa.Field).Name())
+				}
+			}
+		}
 	}
 }
 
@@ -563,6 +607,7 @@ func (v *Verifier) VerifyFunc(key string) (res *FuncResult) {
 		}
 	}
 	x.prescan()
+	v.setOnceSweep()
 	st := &State{Cells: map[*Cell]*Val{}, Heap: map[string]*Term{}, Held: map[string]*Held{}, FreshRefs: map[string]bool{}, Closures: map[string]*Closure{}, CallCount: map[string]int{}}
 	fr := &Frame{Fn: fn, Regs: map[ssa.Value]*Val{}, Blk: fn.Blocks[0], LoopSeen: map[*ssa.BasicBlock]bool{}}
 	st.Frames = []*Frame{fr}
